@@ -429,7 +429,13 @@ def setup_path(case):
         if not isinstance(case['net'], str) and any(r and r['variety'] for r in case['net']['desc']['roadms']):
             # the 'detailed_impairments' ROADM of the stock library defines its impairments for 191.3-196.1 THz only
             bands = [(max(lo, 191_300_000_000_000), min(hi, 196_100_000_000_000)) for lo, hi in bands]
-        car = gen_carriers(random.Random(case['cseed']), bands, case['nch'], pmax_dbm=case['pmax_dbm'])
+        if case['sim'] == 'raman_ggn':
+            # sparse `computed_channels`: the NLI density of the other channels is interpolated in frequency from the
+            # computed ones, which is only meaningful for combs of comparable powers (a -30 dBm channel next to a +3 dBm
+            # one would be given more NLI than it has power: outside what the property claims) -> +-3 dB spread only
+            car = gen_carriers(random.Random(case['cseed']), bands, case['nch'], pmin_dbm=-3.0, pmax_dbm=3.0)
+        else:
+            car = gen_carriers(random.Random(case['cseed']), bands, case['nch'], pmax_dbm=case['pmax_dbm'])
         if car:
             path, req = path_request(eq, net, src, dst, car)
     if not car:
